@@ -21,7 +21,11 @@ pub const EXPECTED_PROBES: [&str; 14] = [
     "extracted",
 ];
 
-pub fn mon_for(prop: &str) -> MonCfg { MonCfg::only(prop) }
+pub fn mon_for(prop: &str) -> MonCfg {
+    let mut m = MonCfg::only(prop);
+    m.known = crate::runner::load_known_findings().into_iter().map(|k| (k.property, k.class_prefix, k.text_contains, k.what)).collect();
+    m
+}
 
 pub fn bias_for(_prop: &str, cfg: &str) -> GenBias {
     let mut b = GenBias::default();
@@ -35,8 +39,8 @@ pub fn bias_for(_prop: &str, cfg: &str) -> GenBias {
 
 pub fn runs_for(prop: &str, tier: &str) -> u64 {
     let quick = match prop {
-        "C14" => 4000,
-        _ => 4000,
+        "C03" => 12_000,
+        _ => 16_000,
     };
     if tier == "thorough" {
         quick * 40
